@@ -4,3 +4,7 @@ package leader
 
 // verifYield is a no-op in the default build (see verif_hooks.go).
 func (e *kvElection) verifYield(site string) {}
+
+// verifHeld and verifPreLock are never called in the default build (see verif_hooks.go).
+func verifHeld(delta int)      {}
+func verifPreLock(site string) {}
